@@ -79,7 +79,6 @@ def _build(case):
 
 def _wrap(case, X):
     """The object handed to fairlearn and the sensitive_feature_ids."""
-    layout = case["layout"]
     _, _, _, s_pos, _, _ = _build(case)
     order = case["ids_order"]
     if case["container"] == "dataframe":
